@@ -22,7 +22,7 @@ UNDECIDED = "that each individual answer is right (C01/C03/C07); OS-level sharin
 DEC = "ragc_core::decompressor::Decompressor"
 COL = "ragc_common::collection::CollectionV3"
 ARC = "ragc_common::archive::Archive"
-ADTS = (DEC, COL, ARC, "ragc_common::collection::SampleDesc", "ragc_common::archive::Stream")
+ADTS = (DEC, COL, ARC, "ragc_common::collection::SampleDesc", "ragc_common::archive::Stream", "ragc_common::collection::ContigDesc")
 
 ALLOW = {
     (DEC, ("segment_cache",)): "per-handle reference cache (H3: single filler)",
@@ -129,6 +129,8 @@ def allowed(fp):
         return names[:1] == ("contigs",), "SampleDesc.contigs"
     if root == "ragc_common::archive::Stream":
         return False, None
+    if root == "ragc_common::collection::ContigDesc":
+        return True, "element of the lazily loaded contig tables (H8: written by the loader only)"
     for (r, prefix), why in ALLOW.items():
         if r == root and names[:len(prefix)] == prefix:
             return True, why
@@ -287,6 +289,43 @@ def run(F, rep):
                        site=L["site"], key="C08-H6 | %s | load loop" % f.key)
         rep.floor("C08-H6", nl, 6, "lazy-load loops over contig batches")
 
+    # ------------------------------------------------------------ H8: load-once tables only grow
+    # The allow-list lets queries touch the contig tables because they are filled once by the idempotent loader (H2) and
+    # what is in them afterwards never changes.  That is true only while nothing a query can reach takes entries out
+    # again (or replaces them) - the loader would not bring them back, its counters say "loaded": every write that is
+    # not an insertion must sit in code reachable only through the loader, i.e. unreachable from the queries once
+    # load_contig_batch is removed from the call graph.
+    GROW = re.compile(r"^borrow_mut->(push|push_back|insert|extend|extend_from_slice|reserve|reserve_exact|entry|or_insert\w*|append)$")
+    # (the reference cache is not in this list: its readers call the filler first and the filler reloads on a miss, so evicting from it is harmless)
+    CACHES = {(COL, ("sample_desc", "contigs")), ("ragc_common::collection::SampleDesc", ("contigs",)),
+              ("ragc_common::collection::ContigDesc", ("segments",)), ("ragc_common::collection::ContigDesc", ("name",))}
+    if loader:
+        qkeys = [q.key for q in queries]
+        reach_all = G.reachable(qkeys)
+        reach_wo = G.reachable(qkeys, stop=lambda x: x == loader.key)
+        n8 = 0
+        for k in sorted(reach_all):
+            f = F.funcs[k]
+            if f.crate not in ("ragc_core", "ragc_common"):
+                continue
+            if k not in writes_cache:
+                writes_cache[k] = local_writes(f)
+            for fp, how, where in writes_cache[k]:
+                root, names = fp
+                hit = [c for c in CACHES if c[0] == root and names[:len(c[1])] == c[1]]
+                if not hit:
+                    continue
+                n8 += 1
+                grows = bool(GROW.match(how))
+                private = k not in reach_wo
+                rep.ob("C08-H8", "%s.%s is only added to by queries (%s in %s)" % (root.rsplit("::", 1)[-1], ".".join(names), how, k.split("::", 1)[-1]),
+                       grows or private,
+                       detail=("insertion" if grows else "inside the load-once loader (reachable only through load_contig_batch)") if (grows or private) else
+                       "%s of a cache in code a query reaches outside the loader: entries taken out or replaced here make later answers depend on the query history (path: %s)" % (
+                           how, " -> ".join(x.rsplit("::", 1)[-1] for x in (_path_without(G, qkeys, loader.key, k) or []))),
+                       site=site_of(f, where), key="C08-H8 | %s | %s.%s | %s" % (k, root.rsplit("::", 1)[-1], ".".join(names), how))
+        rep.floor("C08-H8", n8, 4, "writes to the lazily loaded contig tables")
+
     # ------------------------------------------------------------ H7: the belief behind the `reader` entry of the allow-list
     # "every read seeks to an absolute offset first": in each function that reads part bytes, the read is dominated by a
     # seek to SeekFrom::Start(<offset of the part>) on the same reader, on every path (no remembered position).
@@ -314,6 +353,7 @@ def run(F, rep):
     # ------------------------------------------------------------ H3
     fillers = {}
     readers = {}
+    evictors = {}
     for f in F.funcs.values():
         if f.crate != "ragc_core":
             continue
@@ -327,15 +367,36 @@ def run(F, rep):
                 continue
             if re.search(r"::(insert|entry|extend|get_or_insert\w*|try_insert)$", t["callee"]):
                 fillers.setdefault(f.key, []).append(site_of(f, t))
-            elif re.search(r"::(remove|clear|retain|drain)$", t["callee"]):
-                fillers.setdefault(f.key, []).append(site_of(f, t))
+            elif re.search(r"::(remove|remove_entry|clear|retain|drain|shrink_to_fit|shrink_to)$", t["callee"]):
+                evictors.setdefault(f.key, []).append((bi, site_of(f, t)))
             else:
-                readers.setdefault(f.key, []).append(site_of(f, t))
+                readers.setdefault(f.key, []).append((bi, site_of(f, t)))
     rep.floor("C08-H3", len(fillers), 1, "functions that fill the reference cache")
     rep.ob("C08-H3", "the reference cache is filled by exactly one function", len(fillers) == 1,
            detail="fillers: %s" % {k: v for k, v in fillers.items()}, site=(list(fillers.values())[0][0] if fillers else None),
            key="C08-H3 | segment_cache | single filler")
+    # hit or miss must not matter: every other function that looks into the cache calls the filler first, or calls it on
+    # the path that follows the look-up (the miss path).  With that, evicting entries is harmless (the filler reloads).
+    if len(fillers) == 1:
+        fk = list(fillers)[0]
+        for k, sites in sorted(readers.items()):
+            if k == fk:
+                continue
+            f = F.funcs[k]
+            gk = cfg_of(f)
+            fcalls = [bi for bi, t in f.calls() if not t.get("indirect") and t["callee"] == fk]
+            for bi, site in sites:
+                ok = any(gk.dominates(c, bi) for c in fcalls) or any(c in gk.reachable_from(bi) for c in fcalls)
+                rep.ob("C08-H3", "look-up of the reference cache in %s is backed by the filler (a miss is reloaded, so hit or miss gives the same answer)" % k.rsplit("::", 1)[-1], ok,
+                       detail="calls of %s in this body: %d" % (fk.rsplit("::", 1)[-1], len(fcalls)), site=site, key="C08-H3 | %s | look-up backed by the filler" % k)
+        ff = F.funcs[fk]
+        miss = any(not t.get("indirect") and re.search(r"HashMap.*::(contains_key|get)$", t["callee"]) for _, t in ff.calls())
+        for k, sites in sorted(evictors.items()):
+            for bi, site in sites:
+                rep.ob("C08-H3", "eviction from the reference cache in %s is harmless: the filler tests for a miss and reloads" % k.rsplit("::", 1)[-1], miss,
+                       site=site, key="C08-H3 | %s | eviction" % k)
     rep.stat("cache_readers", sorted(readers))
+    rep.stat("cache_evictors", sorted(evictors))
 
     # ------------------------------------------------------------ H4
     npan = 0
@@ -532,3 +593,25 @@ def _local_is_static(f, l, st):
                 if st in repr(s["rv"]):
                     return True
     return False
+
+
+def _path_without(G, roots, removed, target):
+    prev = {}
+    todo = [r for r in roots if r != removed]
+    for r in todo:
+        prev[r] = None
+    i = 0
+    while i < len(todo):
+        k = todo[i]
+        i += 1
+        if k == target:
+            out = []
+            while k is not None:
+                out.append(k)
+                k = prev[k]
+            return out[::-1]
+        for c in sorted(G.out.get(k, ())):
+            if c not in prev and c != removed:
+                prev[c] = k
+                todo.append(c)
+    return None
